@@ -217,7 +217,7 @@ def kernels():
     UL_BODY = ("(unfold rotation_from_up_and_look; cbv [vnorm vnorm2 vdot vdivs vsub vscale vcross m3rows n0 vx vy vz]; rops;\n"
                "   repeat match goal with |- context [Reqb ?a ?b] => destruct (Reqb_spec a b) as [?E|?E];\n"
                "     [exfalso; first [contradiction | lra | sqrt_contra]|] end;\n"
-               "   cbn [rmap]; f_equal; unfold {T}, nfrac; %s; list_eq ltac:(ring_sqrt))" % UNF)
+               "   cbn [rmap]; f_equal; unfold {T}, nfrac; %s; list_eq ltac:(elem_eq))" % UNF)
     UL_SCALE = ("(rewrite <- (up_look_scale_invariant %s %s (V3 u0 u1 u2) (V3 l0 l1 l2)) by lra;\n"
                 "   replace (vscale ROps %s (V3 u0 u1 u2)) with (V3 (u0 * %s) (u1 * %s) (u2 * %s))\n"
                 "     by (unfold vscale; cbn [vx vy vz]; rops; apply V3_ext; ring);\n"
@@ -228,6 +228,11 @@ def kernels():
         "(* a path fact  sqrt a <> 0  against a case hypothesis  sqrt b = 0  with ring-equal a, b *)\n"
         "Ltac sqrt_contra := match goal with Hn : sqrt ?a <> 0, He : sqrt ?b = 0 |- _ =>\n"
         "  apply Hn; rewrite <- He; f_equal; ring end.\n"
+        "(* one entry: syntactically equal, or equal as polynomials in the square roots taken as opaque atoms (division\n"
+        "   unfolded to multiplication by an inverse), or the same after unifying ring-equal square-root arguments *)\n"
+        "Ltac abs_sqrts := repeat match goal with |- context [sqrt ?a] =>\n"
+        "  let n := fresh \"n\" in set (n := sqrt a) in *; clearbody n end.\n"
+        "Ltac elem_eq := first [ reflexivity | solve [clear; abs_sqrts; unfold Rdiv; ring] | ring_sqrt ].\n"
         "Lemma {T}_ok : forall {vars} : R, {T}_path ROps {vars} ->\n"
         "  rmap (m3list (F:=R)) (rotation_from_up_and_look ROps (V3 u0 u1 u2) (V3 l0 l1 l2)) = Ok ({T} ROps {vars}).\n"
         "Proof. intros {vars} Hpath. unfold {T}_path, nfrac in Hpath; rops. path_facts Hpath.\n"
